@@ -388,6 +388,43 @@ func checkLeftoverSkips(c *core.Ctx) {
 		return true
 	})
 	skipStaging := false
+	// the directory the staging directory is created in must be the one whose listing skips the prefix
+	stagingParent, skippedDir := "", ""
+	ast.Inspect(inst.Decl.Body, func(n ast.Node) bool {
+		if call, ok := n.(*ast.CallExpr); ok && p.CalleeName(inst.Info(), call) == "os.MkdirTemp" && len(call.Args) == 2 {
+			stagingParent = core.ExprStr(call.Args[0])
+		}
+		return true
+	})
+	ast.Inspect(list.Decl.Body, func(n ast.Node) bool {
+		rs, ok := n.(*ast.RangeStmt)
+		if !ok {
+			return true
+		}
+		direct := false
+		for _, st := range rs.Body.List {
+			if is, ok := st.(*ast.IfStmt); ok {
+				if call, ok := is.Cond.(*ast.CallExpr); ok && p.CalleeName(list.Info(), call) == "strings.HasPrefix" && len(call.Args) == 2 && core.ExprStr(call.Args[1]) == pattern {
+					direct = true
+				}
+			}
+		}
+		if !direct {
+			return true
+		}
+		ranged := core.ExprStr(rs.X)
+		ast.Inspect(list.Decl.Body, func(m ast.Node) bool {
+			if as, ok := m.(*ast.AssignStmt); ok && len(as.Lhs) == 2 && len(as.Rhs) == 1 && core.ExprStr(as.Lhs[0]) == ranged {
+				if call, ok := as.Rhs[0].(*ast.CallExpr); ok && p.CalleeName(list.Info(), call) == "os.ReadDir" {
+					skippedDir = core.ExprStr(call.Args[0])
+				}
+			}
+			return true
+		})
+		return true
+	})
+	c.Decide(stagingParent != "" && stagingParent == skippedDir, "SKIP", "plugins/manager/staging directory location", inst.Decl.Pos(), 1, "staging directories are created in "+stagingParent+", whose listing skips them",
+		fmt.Sprintf("the staging directory is created in %s, but the listing skips staging names only among the entries of %s: a leftover elsewhere is read as a plugin or as a version and breaks every later start", stagingParent, skippedDir))
 	ast.Inspect(list.Decl.Body, func(n ast.Node) bool {
 		is, ok := n.(*ast.IfStmt)
 		if !ok {
